@@ -356,14 +356,15 @@ class Session:
         return sum(o.cache_info().hits for _, o in self.memos.items)
 
     def log_step(self, i: int, step: dict, out: Outcome | None, *, nontrivial: bool | None = None,
-                 comparable: bool = True, pre_sig: str = "", hit_delta: int = 0):
+                 comparable: bool = True, pre_sig: str = "", hit_delta: int = 0, unordered: bool | None = None):
         opd = core.digest({k: v for k, v in step.items() if k != "id"})
-        unordered = False
-        for key in ("x", "v"):
-            if key in step and _has_unordered_input(step[key]):
+        if unordered is None:
+            unordered = False
+            for key in ("x", "v", "xs"):
+                if key in step and _has_unordered_input(step[key]):
+                    unordered = True
+            if "t" in step and step["t"] is not None and _type_has_set(step["t"]):
                 unordered = True
-        if "t" in step and step["t"] is not None and _type_has_set(step["t"]):
-            unordered = True
         c = out.canon(unordered=unordered) if out is not None else ["fault"]
         cj = core.jdump(c)
         self.chain.add(str(i), opd, cj)
